@@ -1,9 +1,24 @@
 ------------------------------- MODULE MC_API -------------------------------
 (* model-checking instance of CircuitAPI (cfg files cannot write sequences) *)
-EXTENDS CircuitAPI
+EXTENDS CircuitAPI, JudgeHist
 Pool5 == <<"a", "b", "c", "d", "e">>
 Pool8 == <<"a", "b", "c", "d", "e", "f", "g", "h">>
 Blocks2 == <<"B1", "B2">>
 T6 == {"NOT", "AND", "XOR", "GT", "ALWAYS_TRUE", "LIFF"}
 T18 == OpTypes
+
+(* Role D for C10 / C14 / C19: every transition of the model satisfies the very step predicates
+   that judge the recorded implementation steps (rename keeps all references and truth tables,
+   replace_inputs is the cofactor, remove_gate only without users, replace_subcircuit keeps the
+   function, connect is the denotational composition, into_bench keeps function / basis / blocks) *)
+TransOK ==
+  LET a == hist'[Len(hist')]
+      step == [act |-> a, ret |-> "ok", post |-> st',
+               other_before |-> IF a.a = "connect" THEN a.other ELSE <<>>,
+               other_after |-> IF a.a = "connect" THEN a.other ELSE <<>>]
+      case(p) == [prop |-> p, init |-> st, steps |-> <<step>>]
+  IN /\ C19StepFails(case("C19"), 1) = {}
+     /\ C10StepFails(case("C10"), 1) = {}
+     /\ C14StepFails(case("C14"), 1) = {}
+ModelObeysProperties == [][Len(hist') = Len(hist) + 1 => TransOK]_vars
 =============================================================================
